@@ -38,6 +38,14 @@ CHECKS["C03"] = dict(
     ref="C03",
 )
 
+CHECKS["C06"] = dict(
+    technique="Coq proof by structural induction over the expression type (soundness + reflexivity of is_equiv, regenerated from common.is_equivalent by a translator); correspondence by vm_compute on serialised real mypy nodes; pair oracle via ast.dump",
+    category="proof",
+    text="is_equivalent/unmangle_name are translated (fail-closed) into a Coq Fixpoint plus one characterising equation per source case on every run. Proved for all pairs of expressions of any depth: is_equiv a b = true -> syn a = syn b under the guard mypy guarantees (soundness; corollaries for differing operator/attribute/arity/arg kind/keyword/int literal), and is_equiv a a = true (reflexivity). The generated function is compared with the real one on hundreds of harvested pairs (identical in other layouts, single-edit mutants, unrelated), the real function is compared with an ast.dump oracle, and FURB110 is checked end to end.",
+    note="Trusted: Coq kernel; equiv translator; serializer; Lib/Equiv.v strconv (assumption: mypy renders different classes differently). Open findings: import aliases compare equal; classes without an explicit case are compared via str() (line numbers/definition markers).",
+    ref="C06",
+)
+
 NOT_APPLICABLE = {}
 
 
